@@ -73,6 +73,7 @@ struct Args {
     out: PathBuf,
     map: PathBuf,
     list: Option<(String, String)>,
+    canary_out: Option<PathBuf>,
 }
 
 fn parse_args() -> Args {
@@ -83,6 +84,7 @@ fn parse_args() -> Args {
         out: PathBuf::new(),
         map: PathBuf::new(),
         list: None,
+        canary_out: None,
     };
     let v: Vec<String> = std::env::args().collect();
     let mut i = 1;
@@ -103,6 +105,10 @@ fn parse_args() -> Args {
             }
             "--map" => {
                 a.map = PathBuf::from(&v[i + 1]);
+                i += 2;
+            }
+            "--canary-out" => {
+                a.canary_out = Some(PathBuf::from(&v[i + 1]));
                 i += 2;
             }
             "--list" => {
@@ -361,6 +367,7 @@ struct Emit {
     text: String,
     line: usize, // next output line (1-based)
     segments: Vec<Value>,
+    canaries: Vec<(usize, String, String)>, // byte offset in text, canary name, canary text
 }
 
 impl Emit {
@@ -399,6 +406,7 @@ fn main() {
         text: String::new(),
         line: 1,
         segments: Vec::new(),
+        canaries: Vec::new(),
     };
     let mut items_json = Vec::new();
     let mut tmpl_line = 0usize;
@@ -424,7 +432,21 @@ fn main() {
         }
     }
     std::fs::write(&args.out, &em.text).unwrap_or_else(|e| die(&format!("write {:?}: {}", args.out, e)));
+    let mut canary_names = Vec::new();
+    if let Some(cp) = &args.canary_out {
+        let mut t = String::new();
+        let mut pos = 0usize;
+        for (off, name, text) in &em.canaries {
+            t.push_str(&em.text[pos..*off]);
+            t.push_str(text);
+            pos = *off;
+            canary_names.push(name.clone());
+        }
+        t.push_str(&em.text[pos..]);
+        std::fs::write(cp, t).unwrap_or_else(|e| die(&format!("write {:?}: {}", cp, e)));
+    }
     let map = json!({
+        "canaries": canary_names,
         "template": args.template.to_string_lossy(),
         "items": items_json,
         "segments": em.segments,
@@ -434,17 +456,28 @@ fn main() {
 }
 
 fn expand_includes(text: &str, root: &Path, depth: usize) -> String {
+    expand_includes_mode(text, root, depth, false)
+}
+
+fn expand_includes_mode(text: &str, root: &Path, depth: usize, trusted: bool) -> String {
     if depth > 8 {
         die("//@include nesting too deep");
     }
     let mut out = String::new();
     for line in text.lines() {
         if let Some(rest) = line.trim_start().strip_prefix("//@include") {
+            let (rest, sub_trusted) = match rest.strip_prefix("-trusted") {
+                Some(r) => (r, true),
+                None => (rest, trusted),
+            };
             let p = root.join(rest.trim());
             let inc = std::fs::read_to_string(&p).unwrap_or_else(|e| die(&format!("cannot include {:?}: {}", p, e)));
             out.push_str(&format!("// ---- begin include {} ----\n", rest.trim()));
-            out.push_str(&expand_includes(&inc, root, depth + 1));
+            out.push_str(&expand_includes_mode(&inc, root, depth + 1, sub_trusted));
             out.push_str(&format!("// ---- end include {} ----\n", rest.trim()));
+        } else if trusted && line.trim_start().starts_with("//@item") && !line.contains(" : ") {
+            out.push_str(line.trim_end());
+            out.push_str(" : trusted\n");
         } else {
             out.push_str(line);
             out.push('\n');
@@ -588,6 +621,9 @@ fn emit_item(
         em.push("}\n", json!({"kind": "wrap"}));
     }
     em.push("//@end\n", json!({"kind": "marker"}));
+    if let Some((name, text)) = canary_for(spec, src, &found[0], items_json.len()) {
+        em.canaries.push((em.text.len(), name, text));
+    }
     items_json.push(json!({
         "file": spec.file,
         "path": path.to_string_lossy(),
@@ -763,4 +799,88 @@ fn fn_edits(
 
 pub fn die_pub(msg: &str) -> ! {
     die(msg)
+}
+
+/// split contract lines into (requires, ensures) clause text by the leading keyword of each line
+fn split_contract(lines: &[String]) -> (String, String) {
+    let mut req = String::new();
+    let mut ens = String::new();
+    let mut cur = 0; // 0 none, 1 requires, 2 ensures, 3 other
+    for l in lines {
+        let t = l.trim();
+        let (kw, rest) = match t.split_once(char::is_whitespace) {
+            Some((k, r)) => (k, r),
+            None => (t, ""),
+        };
+        let body = match kw {
+            "requires" => { cur = 1; rest }
+            "ensures" => { cur = 2; rest }
+            "decreases" | "returns" | "recommends" | "no_unwind" | "opens_invariants" => { cur = 3; rest }
+            _ => t,
+        };
+        // strip trailing line comments
+        let body = match body.find("//") { Some(i) => &body[..i], None => body };
+        match cur {
+            1 => { req.push_str(body); req.push('\n'); }
+            2 => { ens.push_str(body); ens.push('\n'); }
+            _ => {}
+        }
+    }
+    (req, ens)
+}
+
+/// Vacuity canary for one item: a proof fn with the item's parameters, its precondition (for stubs
+/// also its postcondition over an arbitrary result) as `requires`, and `ensures false`.  It must
+/// FAIL to verify; if it verifies the contract is contradictory.
+fn canary_for(spec: &ItemSpec, src: &str, found: &Found, n: usize) -> Option<(String, String)> {
+    let (sig, wrap): (&syn::Signature, Option<String>) = match found {
+        Found::ImplFn(im, f) => {
+            let generics = quote::ToTokens::to_token_stream(&im.generics).to_string();
+            (&f.sig, Some(format!("impl{} {} {{\n", generics, type_name(&im.self_ty))))
+        }
+        Found::Item(syn::Item::Fn(f)) => (&f.sig, None),
+        _ => return None,
+    };
+    let (req, ens) = split_contract(&spec.sig);
+    let trusted = spec.mode == "trusted";
+    if req.trim().is_empty() && !(trusted && !ens.trim().is_empty()) {
+        return None;
+    }
+    let mut params = Vec::new();
+    for inp in &sig.inputs {
+        let (a, b) = br(inp.span());
+        let t = src[a..b].to_string();
+        if t.contains("&mut") || t.contains("impl ") || t.starts_with("mut ") {
+            return None;
+        }
+        params.push(t);
+    }
+    let mut clauses = req.clone();
+    if trusted && !ens.trim().is_empty() {
+        if ens.contains("old(") || ens.contains("final(") {
+            return None;
+        }
+        if let syn::ReturnType::Type(_, ty) = &sig.output {
+            let name = spec.retname.clone().unwrap_or_else(|| "r".into());
+            let tytext = match &spec.ret {
+                Some(r) => r.clone(),
+                None => { let (a, b) = br(ty.span()); src[a..b].to_string() }
+            };
+            if tytext.contains("impl ") {
+                return None;
+            }
+            params.push(format!("{}: {}", name, tytext));
+        }
+        clauses.push_str(&ens);
+    }
+    let generics = {
+        let g = quote::ToTokens::to_token_stream(&sig.generics).to_string();
+        g
+    };
+    let name = format!("canary_{}_{}", n, sig.ident);
+    let mut t = String::new();
+    if let Some(w) = &wrap { t.push_str(w); }
+    let _ = write!(t, "pub proof fn {}{}({})\n    requires\n{}    ensures false,\n{{}}\n", name, generics, params.join(", "), clauses);
+    if wrap.is_some() { t.push_str("}\n"); }
+    Some((name, t))
 }
